@@ -283,6 +283,8 @@ def gen_histories(ctx, methods, icls, nvec, enabled):
 
 PARTIES = ["$OUT", "$ADMB", "$GOV0", "$GOV1", "$NODE", "$ADMA", "$NEW", "$ADMC", "$WARMROLE", "$ZNEW", "$ZROLE", "$ADMO", "$ADMS", "$ADMT", "$ADMU", "$GOV2", "$GOV3", "$GOVN", "$GOVM", "$ADMX", "$EXADM"]
 OWN_OBJECTS = {4: ("chainA", "svcA"), 1: ("chainB", "svcB")}
+# contracts whose state is open to everybody by design (class OpenWrite over a flat namespace): no key of theirs is "another party's record"
+PUBLIC_NAMESPACES = ("StoreContractAddr",)
 
 
 def foreign_entries(role, o, created=(), own=None, own_objects=None):
@@ -295,6 +297,8 @@ def foreign_entries(role, o, created=(), own=None, own_objects=None):
         if len(d) < 3 or d[2] == "new":
             continue
         key = d[1]
+        if d[0] in PUBLIC_NAMESPACES:
+            continue      # the Store contract is a flat public key-value namespace: its keys belong to nobody, whatever they look like
         if (d[0], key) in created:
             continue      # a record this caller created earlier in the same history is its own
         toks = [m.group(1) for m in re.finditer(r"(\$[A-Z0-9]+)(?![A-Z0-9~])", key)]
